@@ -553,6 +553,13 @@ class BodyPartReader:
                 self._content.unread_data(self._prev_chunk)
             self._prev_chunk = None
             self._content_eof = 0
+        if self._b64_carry:
+            # And, in front of it, the tail read_chunk() carries to its next chunk.
+            with warnings.catch_warnings():
+                warnings.filterwarnings("ignore", category=DeprecationWarning)
+                self._content.unread_data(self._b64_carry)
+            self._read_bytes -= len(self._b64_carry)
+            self._b64_carry = b""
 
         if self._unread:
             line = self._unread.popleft()
